@@ -1,11 +1,115 @@
+/-
+Driver of C09.  Case line (tokens):
+
+  v <qname> <qtype> <soa|-> <rcode> <wl|-> <soft> <hard>
+    <n> { <owner> <next-hex> <optout> <iterations> <salt-hex> <types|-> }*n
+    <m> { <name> <hash-hex> }*m
+
+`wl` = `num_labels` of the first RRSIG among the answers (`-` = no RRSIG), `types` = decimal type
+codes separated by `,`.  The `m` pairs are the hash oracle: the real NSEC3 hash (first record's salt
+and iterations) of every name the model may ask for, keyed by the lower-cased name.
+Answer: `<proof> <classes|->` where classes are the finding classes whose Lean predicate holds.
+-/
 import HickoryVerif.Drv.Proto
+import HickoryVerif.Model.Nsec3
 
 namespace HickoryVerif.Drv.C09
-open HickoryVerif HickoryVerif.Drv
+open HickoryVerif HickoryVerif.Drv HickoryVerif.Nsec3
 
 abbrev State := Unit
 def init : State := ()
 
-def step (s : State) (_toks : List String) : State × String := (s, "bad-op")
+def parseTypes (s : String) : Option (List Nat) :=
+  if s == "-" then some [] else (s.splitOn ",").mapM (·.toNat?)
+
+def parseOptName (s : String) : Option (Option Name) :=
+  if s == "-" then some none else (parseName s).map some
+
+def parseOptNat (s : String) : Option (Option Nat) :=
+  if s == "-" then some none else s.toNat?.map some
+
+def parseRecs : Nat → List String → Option (List Rec × List String)
+  | 0, rest => some ([], rest)
+  | n + 1, o :: nx :: oo :: it :: sa :: ty :: rest => do
+    let owner ← parseName o
+    let next ← parseHex nx
+    let iterations ← it.toNat?
+    let salt ← parseHex sa
+    let types ← parseTypes ty
+    let (rs, rest') ← parseRecs n rest
+    pure ({ owner, next, optOut := oo == "1", iterations, salt, types } :: rs, rest')
+  | _, _ => none
+
+def parseTable : Nat → List String → Option (List (Name × Bytes))
+  | 0, [] => some []
+  | n + 1, a :: h :: rest => do
+    let a ← parseName a
+    let h ← parseHex h
+    let t ← parseTable n rest
+    pure ((a, h) :: t)
+  | _, _ => none
+
+/-- the hash oracle: `Nsec3HashAlgorithm::hash` lower-cases the name before hashing -/
+def tableH (t : List (Name × Bytes)) (n : Name) : Bytes :=
+  match t.find? (fun p => p.1 == n.toLowercase) with
+  | some p => p.2
+  | none => []
+
+def showProof : Proof → String
+  | .secure => "secure"
+  | .insecure => "insecure"
+  | .bogus => "bogus"
+
+def handle (toks : List String) : Option String :=
+  match toks with
+  | "v" :: q :: qt :: soa :: rc :: wl :: soft :: hard :: n :: rest => do
+    let q ← parseName q
+    let qt ← qt.toNat?
+    let soa ← parseOptName soa
+    let rc ← rc.toNat?
+    let wl ← parseOptNat wl
+    let soft ← soft.toNat?
+    let hard ← hard.toNat?
+    let n ← n.toNat?
+    let (recs, rest) ← parseRecs n rest
+    match rest with
+    | m :: rest =>
+      let m ← m.toNat?
+      let tbl ← parseTable m rest
+      if recs.isEmpty then pure "panic" else
+      let H := tableH tbl
+      let p := verifyNsec3 current H base32hex q qt soa rc wl recs soft hard
+      pure (showProof p ++ " " ++ classOf H base32hex q qt soa rc wl recs soft hard)
+    | [] => none
+  | "vx" :: bits :: q :: qt :: soa :: rc :: wl :: soft :: hard :: n :: rest => do
+    -- the model with the repairs `bits` = apex,wrap,optout,deleg,wild (each 0/1) switched on: used to
+    -- validate repo-patches/C09-*.diff against a patched copy of the repository
+    let fx : Fixes ← match bits.toList with
+      | [a, w, o, d, x] => some { apex := a == '1', wrap := w == '1', optout := o == '1',
+                                  deleg := d == '1', wild := x == '1' }
+      | _ => none
+    let q ← parseName q
+    let qt ← qt.toNat?
+    let soa ← parseOptName soa
+    let rc ← rc.toNat?
+    let wl ← parseOptNat wl
+    let soft ← soft.toNat?
+    let hard ← hard.toNat?
+    let n ← n.toNat?
+    let (recs, rest) ← parseRecs n rest
+    match rest with
+    | m :: rest =>
+      let m ← m.toNat?
+      let tbl ← parseTable m rest
+      if recs.isEmpty then pure "panic" else
+      pure (showProof (verifyNsec3 fx (tableH tbl) base32hex q qt soa rc wl recs soft hard))
+    | [] => none
+  | ["b32", x] => do
+    let x ← parseHex x
+    pure (toHex (base32hex x))
+  | _ => none
+
+def step (s : State) (toks : List String) : State × String :=
+  (s, (handle toks).getD "bad-op")
 
 end HickoryVerif.Drv.C09
